@@ -19,12 +19,15 @@
 (*   "reset_late"    the memory shard is reset in step (2) instead of (1)    *)
 (*   "hoisted_index" the index of a new collection is computed once per call *)
 (*   "first_verdict" the first collection with a table entry decides         *)
+(*   "quadratic_count" the indexed-entry counter adds the whole table size   *)
+(*                   at every registration                                   *)
 (***************************************************************************)
 EXTENDS Naturals, FiniteSets, Sequences, TLC
 
 CONSTANTS Threads, Xorbs, XC,     \* XC[x]: the chunk list of xorb x (content addressing: fixed)
           Ext,                    \* shards that exist elsewhere and may be registered: records [id, key, xorbs]
           P0,                     \* P0[c]: 64-bit prefix of the plain hash of chunk c (collisions allowed)
+          IndexCap,               \* CHUNK_INDEX_TABLE_MAX_SIZE: once that many table entries exist, shards are registered unindexed
           Variant
 
 VARIABLES mem,        \* xorbs in the in-memory shard
@@ -33,8 +36,9 @@ VARIABLES mem,        \* xorbs in the in-memory shard
           pend,       \* per thread: the shard it wrote and still has to register, or None
           cols,       \* sequence of collections [key, shards (seq of shard records), table (set of <<pfx, shard id, x, off>>)]
           byKey,      \* collection_by_key: key -> index into cols
+          indexed,    \* total_indexed_chunks: number of table entries, compared with IndexCap before a shard is indexed
           nextId
-vars == <<mem, added, disk, pend, cols, byKey, nextId>>
+vars == <<mem, added, disk, pend, cols, byKey, indexed, nextId>>
 
 None == [id |-> 0, key |-> 0, xorbs |-> {}]
 ChunksOfX(x) == {XC[x][i] : i \in 1..Len(XC[x])}
@@ -42,10 +46,11 @@ Pfx(c, k) == IF k = 0 THEN <<0, P0[c]>> ELSE <<k, c>>         \* keyed hashes of
 Locs(s) == {l \in {<<x, i>> : x \in s.xorbs, i \in 1..3} : l[2] <= Len(XC[l[1]])}      \* (xorb, chunk index) pairs of a shard
 
 Init == /\ mem = {} /\ added = {} /\ disk = {} /\ pend = [t \in Threads |-> None]
-        /\ cols = <<[key |-> 0, shards |-> <<>>, table |-> {}]>> /\ byKey = (0 :> 1) /\ nextId = 1
+        /\ cols = <<[key |-> 0, shards |-> <<>>, table |-> {}]>> /\ byKey = (0 :> 1) /\ indexed = 0 /\ nextId = 1
 
 (* ---- registration: one shard, given the bookkeeping state b = [cols, byKey] and the collection count n0 that the
         "hoisted_index" variant computed once at the start of the call ---- *)
+Book == [cols |-> cols, byKey |-> byKey, indexed |-> indexed]
 Registered(b) == UNION {{b.cols[i].shards[j].id : j \in 1..Len(b.cols[i].shards)} : i \in 1..Len(b.cols)}
 TableAfter(tbl, s) ==
   LET ps == {Pfx(XC[l[1]][l[2]], s.key) : l \in Locs(s)}
@@ -58,7 +63,11 @@ RegOne(b, s, n0) ==
            bk == IF s.key \in DOMAIN b.byKey THEN b.byKey ELSE (s.key :> idx) @@ b.byKey
            cs == IF idx = n + 1 /\ idx > Len(b.cols) THEN Append(b.cols, [key |-> s.key, shards |-> <<>>, table |-> {}])
                  ELSE b.cols
-       IN [cols |-> [cs EXCEPT ![idx].shards = Append(@, s), ![idx].table = TableAfter(@, s)], byKey |-> bk]
+           upd == b.indexed < IndexCap                       \* the cap is looked at once per shard, before indexing it
+           tbl == IF upd THEN TableAfter(cs[idx].table, s) ELSE cs[idx].table
+           grown == Cardinality(tbl) - Cardinality(cs[idx].table)
+       IN [cols |-> [cs EXCEPT ![idx].shards = Append(@, s), ![idx].table = tbl], byKey |-> bk,
+           indexed |-> b.indexed + (IF Variant = "quadratic_count" THEN Cardinality(tbl) ELSE grown)]
 RECURSIVE RegSeq(_, _, _)
 RegSeq(b, sq, n0) == IF sq = <<>> THEN b ELSE RegSeq(RegOne(b, Head(sq), n0), Tail(sq), n0)
 
@@ -66,18 +75,18 @@ RegSeq(b, sq, n0) == IF sq = <<>> THEN b ELSE RegSeq(RegOne(b, Head(sq), n0), Ta
 AddCas(t, x) ==
   /\ pend[t] = None /\ x \notin added
   /\ mem' = mem \cup {x} /\ added' = added \cup {x}
-  /\ UNCHANGED <<disk, pend, cols, byKey, nextId>>
+  /\ UNCHANGED <<disk, pend, cols, byKey, indexed, nextId>>
 
 FlushWrite(t) ==
   /\ pend[t] = None /\ mem # {}
   /\ LET s == [id |-> nextId, key |-> 0, xorbs |-> mem] IN
      /\ disk' = disk \cup {s} /\ pend' = [pend EXCEPT ![t] = s] /\ nextId' = nextId + 1
   /\ mem' = IF Variant = "reset_late" THEN mem ELSE {}
-  /\ UNCHANGED <<added, cols, byKey>>
+  /\ UNCHANGED <<added, cols, byKey, indexed>>
 
 FlushRegister(t) ==
   /\ pend[t] # None
-  /\ LET b == RegSeq([cols |-> cols, byKey |-> byKey], <<pend[t]>>, Len(cols)) IN cols' = b.cols /\ byKey' = b.byKey
+  /\ LET b == RegSeq(Book, <<pend[t]>>, Len(cols)) IN cols' = b.cols /\ byKey' = b.byKey /\ indexed' = b.indexed
   /\ pend' = [pend EXCEPT ![t] = None]
   /\ mem' = IF Variant = "reset_late" THEN {} ELSE mem
   /\ UNCHANGED <<added, disk, nextId>>
@@ -86,8 +95,8 @@ FlushRegister(t) ==
 SeqsOf(S) == {sq \in [1..Cardinality(S) -> S] : \A i, j \in 1..Cardinality(S) : i # j => sq[i] # sq[j]}
 RegisterExt(S, sq) ==
   /\ S # {} /\ S \subseteq Ext /\ sq \in SeqsOf(S)
-  /\ \A s \in S : s.id \notin Registered([cols |-> cols, byKey |-> byKey])
-  /\ LET b == RegSeq([cols |-> cols, byKey |-> byKey], sq, Len(cols)) IN cols' = b.cols /\ byKey' = b.byKey
+  /\ \A s \in S : s.id \notin Registered(Book)
+  /\ LET b == RegSeq(Book, sq, Len(cols)) IN cols' = b.cols /\ byKey' = b.byKey /\ indexed' = b.indexed
   /\ UNCHANGED <<mem, added, disk, pend, nextId>>
 
 Next == \/ \E t \in Threads : (\E x \in Xorbs : AddCas(t, x)) \/ FlushWrite(t) \/ FlushRegister(t)
@@ -140,5 +149,10 @@ FoundAgain == Quiescent => \A x \in added : \A c \in ChunksOfX(x) : UniqueP0(c) 
 (* C18: every chunk of a registered keyed shard is found with its unkeyed hash, whatever else is registered *)
 KeyedFound == \A i \in 1..Len(cols) : cols[i].key # 0 =>
                  \A j \in 1..Len(cols[i].shards) : \A x \in cols[i].shards[j].xorbs : \A c \in ChunksOfX(x) : Query(c).found
-Invs == ColsKeyed /\ TableSound /\ Truthful /\ NoLoss /\ FoundAgain /\ KeyedFound
+(* the counter compared with the cap is the number of table entries *)
+RECURSIVE TableSize(_)
+TableSize(i) == IF i = 0 THEN 0 ELSE Cardinality(cols[i].table) + TableSize(i - 1)
+IndexedExact == indexed = TableSize(Len(cols))
+\* (FoundAgain and KeyedFound speak about shards that were indexed: they are checked with a cap that is never reached)
+Invs == ColsKeyed /\ TableSound /\ Truthful /\ NoLoss /\ IndexedExact /\ (indexed < IndexCap => FoundAgain /\ KeyedFound)
 =============================================================================
